@@ -124,6 +124,31 @@ def run(ctx):
         d2, _ = call(ctx, 'diff', nbdime.diff, [copy.deepcopy(a), copy.deepcopy(b)])
         if d is not None and not isinstance(a, str):
             call(ctx, 'patch', nbdime.patch, [a, d])
+    # string shapes: every base shape x edit shape, as a bare string document and as a cell source; the same diff object is
+    # applied, printed and applied again
+    for rep in range(1 if ctx.tier == 'quick' else 12):
+        for label, sa, sb in gen_nb.string_shapes(rng, gen_nb.CODE_LINES if rep % 2 == 0 else gen_nb.MD_LINES):
+            ctx.count('string-shape:' + label.split('/')[0])
+            d, err = call(ctx, 'diff', nbdime.diff, [sa, sb], check_alias=False)
+            if d is not None:
+                r1, _ = call(ctx, 'patch', nbdime.patch, [sa, d], check_alias=False)
+                r2, _ = call(ctx, 'patch', nbdime.patch, [sa, d], check_alias=False)
+                if r1 != r2:
+                    ctx.violation('patching the same string with the same diff object twice gives different results',
+                                  {'kind': 'recompute', 'function': 'patch', 'a': sa, 'b': sb})
+            cell = lambda src: {'cell_type': 'code', 'id': 'c1', 'metadata': {}, 'execution_count': None, 'outputs': [], 'source': src}
+            na = nbformat.from_dict({'nbformat': 4, 'nbformat_minor': 5, 'metadata': {}, 'cells': [cell('x = 0\n'), cell(sa)]})
+            nb_ = nbformat.from_dict({'nbformat': 4, 'nbformat_minor': 5, 'metadata': {}, 'cells': [cell('x = 0\n'), cell(sb)]})
+            d, err = call(ctx, 'diff_notebooks', nbdime.diff_notebooks, [na, nb_], check_alias=False)
+            if d is not None:
+                cfg = pp.PrettyPrintConfig(out=io.StringIO(), use_color=False, use_git=rep % 2 == 1, use_diff=False)
+                call(ctx, 'pretty_print_notebook_diff', lambda x, y: pp.pretty_print_notebook_diff('a', 'b', x, y, cfg), [na, d], check_alias=False)
+                r1, _ = call(ctx, 'patch_notebook', nbdime.patch_notebook, [na, d], check_alias=False)
+                r2, _ = call(ctx, 'patch_notebook', nbdime.patch_notebook, [na, d], check_alias=False)
+                call(ctx, 'patch_notebook', nbdime.patch_notebook, [na, d])
+                if snap(r1) != snap(r2) and r1 is not None and r2 is not None:
+                    ctx.violation('patching the same notebook with the same diff object twice gives different results',
+                                  {'kind': 'recompute', 'function': 'patch_notebook', 'a': sa, 'b': sb})
     for t in range(n):
         a, b, kinds = gen_nb.pair(rng)
         na, nb_ = nbformat.from_dict(copy.deepcopy(a)), nbformat.from_dict(copy.deepcopy(b))
